@@ -88,11 +88,12 @@ Proof.
 Qed.
 
 (* an entry that loads: its record has exactly one resistance cassette and the entity constructor accepts it *)
-Definition loadable (e : tarentry) : Prop := gr_resistance (te_record e) <> None /\ gr_entity (te_record e) <> None.
+Definition loadable (e : tarentry) : Prop :=
+  (exists a, find_resistance (te_record e) = Ok a) /\ gr_entity (te_record e) <> None.
 
 Definition item_of (e : tarentry) : regitem :=
   let r := te_record e in
-  mk_Item (gr_id r) (gr_name r) (match gr_resistance r with Some x => x | None => 0%nat end)
+  mk_Item (gr_id r) (gr_name r) (match find_resistance r with Ok a => a | Err _ => None end)
           (match gr_entity r with Some x => x | None => 0%nat end).
 
 Definition data_step (d : list (string * regitem)) (e : tarentry) : list (string * regitem) :=
@@ -105,11 +106,11 @@ Proof.
   match goal with |- bind (py_for0 _ _ ?b) _ = _ => set (body := b) end.
   assert (H : forall a d, Forall loadable a -> py_for0 a d body = Ok (fold_left data_step a d)).
   { induction a as [|e a IH]; intros d H; cbn [py_for0 fold_left]; [reflexivity|].
-    inversion H as [|? ? [Hr He] Ha]; subst.
+    inversion H as [|? ? [[x Ex] He] Ha]; subst.
     unfold body at 1.
     unfold io_wrap, tar_extractfile, grec_circular, seqio_read, EmbeddedRegistry_load_name,
-      EmbeddedRegistry_load_resistance, emb_load_entity, find_resistance, grec_entity, grec_id, grec_name. cbn [bind].
-    destruct (gr_resistance (te_record e)) as [x|] eqn:Ex; [|congruence].
+      EmbeddedRegistry_load_resistance, emb_load_entity, grec_entity, grec_id, grec_name. cbn [bind].
+    rewrite Ex. cbn [bind py_try].
     destruct (gr_entity (te_record e)) as [y|] eqn:Ey; [|congruence]. cbn [bind py_try].
     rewrite <- (IH _ Ha). f_equal. unfold data_step, item_of. now rewrite Ex, Ey. }
   rewrite (H _ _ Hl). reflexivity.
